@@ -51,7 +51,20 @@ def generate(rng, tier, cls):
                                            max_files=3, p_set=0.5,
                                            enc_pool=pool, full=True)}
     elif cls == 'canonical':
-        main, ops = gen.gen_history(rng, big=rng.chance(0.05))
+        pool = None
+
+        if rng.chance(0.3):
+            # codec names as users spell them (upper case, aliases ...): a
+            # canonical file keeps the spelling it was written with
+            from dsim import codecs_cat
+            cat = codecs_cat.catalogue()['codecs']
+            pool = []
+
+            for c in rng.sample(sorted(cat), 3):
+                pool.extend(rng.sample(cat[c], min(4, len(cat[c]))))
+
+        main, ops = gen.gen_history(rng, big=rng.chance(0.05), pool=pool,
+                                    main_pool=pool)
         prod = {'id': 'P1', 'kind': 'writer', 'file': 'f1',
                 'main_encoding': main, 'ops': ops}
     else:
